@@ -190,7 +190,7 @@ func (b *Build) loadSites() error {
 		id, _ := strconv.Atoi(parts[0])
 		line, _ := strconv.Atoi(parts[4])
 		s := &Site{ID: id, Kind: parts[1], File: parts[2], Func: parts[3], Line: line}
-		if s.Kind == "gwrite" && len(parts) >= 6 {
+		if (s.Kind == "gwrite" || s.Kind == "mwrite") && len(parts) >= 6 {
 			s.Name = parts[5]
 		}
 		if s.Kind == "range" && len(parts) >= 6 {
